@@ -28,9 +28,17 @@ ASSUME = ['digest = SHA-256 of each output file; a child that fails for an input
 
 
 def run_child(jobs, hashseed):
+    import shutil
+    import tempfile
+
     env = dict(os.environ, PYTHONHASHSEED=str(hashseed))
-    r = subprocess.run([sys.executable, '-m', 'lib.c18_child'], input=json.dumps({'repo_src': common.REPO_SRC, 'jobs': jobs}),
-                       capture_output=True, text=True, env=env, cwd=common.VERIF)
+    # the parent owns the scratch directory: a child killed with its batch (per-example time limit) cannot clean up after itself
+    d = tempfile.mkdtemp(prefix='c18_')
+    try:
+        r = subprocess.run([sys.executable, '-m', 'lib.c18_child'], input=json.dumps({'repo_src': common.REPO_SRC, 'jobs': jobs, 'tmp': d}),
+                           capture_output=True, text=True, env=env, cwd=common.VERIF)
+    finally:
+        shutil.rmtree(d, ignore_errors=True)
     if r.returncode != 0:
         raise common.HarnessError('c18 child failed: %s' % r.stderr[-800:])
     return json.loads(r.stdout)
